@@ -95,6 +95,9 @@ def parseFfiCall (c : String) : Option Ffi.Call :=
   | ["FB", k] => k.toNat?.map .bufferFree
   | ["FU", k] => k.toNat?.map .bundleFree
   | ["FM", k] => k.toNat?.map .metadataFree
+  | ["PN"] => some .payloadNull
+  | ["FBN"] => some .bufferFreeNull
+  | ["FUN"] => some .bundleFreeNull
   | _ => none
 
 def showFfiOut : Ffi.Out → String
